@@ -439,7 +439,10 @@ fn string_length(
     } else {
         &model::Value::Node(vec![node])
     };
-    Ok(model::Value::Number(String::try_from(arg)?.len() as f64))
+    // XPath 1.0 4.2: the number of characters (`str::len` is the number of UTF-8 bytes)
+    Ok(model::Value::Number(
+        String::try_from(arg)?.chars().count() as f64,
+    ))
 }
 
 fn normalize_space(
